@@ -69,7 +69,61 @@ Definition added_of (acts : list baction) : list T :=
 Definition flushed_of (evs : list bevent) : list (list T) :=
   flat_map (fun e => match e with EFlushed _ l => [l] | _ => [] end) evs.
 
+(* ---- late time-out callbacks ----
+   With a real timer (time.AfterFunc) a callback that has already been started or queued when timer.Stop is called still runs:
+   Stop returns false and the callback of batch k may send its token after batch k was flushed and after a new Add armed the
+   timer for batch k+1. The expiry is therefore split:
+     XExpire      the callback currently set on the timer is committed to run; it carries the token captured when it was set
+                  (`currentBatchToken := b.batchToken` in Add) - nothing else happens yet
+     XDeliver i   the i-th committed callback runs: it sends the token it CAPTURED on BatchTimedOut (it does not read the batcher)
+   BFire is XExpire immediately followed by XDeliver of that callback. Committing and delivering do not change the batcher. *)
+Record bxstate := mkBX { bx_b : bstate; bx_committed : list Z }.
+Definition bx_init : bxstate := mkBX b_init [].
+
+Inductive bxaction := XB (a : baction) | XExpire | XDeliver (i : nat).
+Inductive bxevent := XE (e : bevent) | XExpired (t : option Z) | XDelivered (t : option Z).
+
+Fixpoint drop_nth {A} (i : nat) (l : list A) : list A :=
+  match l, i with
+  | [], _ => []
+  | _ :: l', O => l'
+  | y :: l', S i' => y :: drop_nth i' l'
+  end.
+
+Definition bx_step (p : bparams) (a : bxaction) (s : bxstate) : bxevent * bxstate :=
+  match a with
+  | XB a' => let r := b_step p a' (bx_b s) in (XE (fst r), mkBX (snd r) (bx_committed s))
+  | XExpire =>
+      match armed (bx_b s) with
+      | Some t => (XExpired (Some t), mkBX (bx_b s) (bx_committed s ++ [t]))
+      | None => (XExpired None, s)
+      end
+  | XDeliver i =>
+      match nth_error (bx_committed s) i with
+      | Some t => (XDelivered (Some t), mkBX (bx_b s) (drop_nth i (bx_committed s)))
+      | None => (XDelivered None, s)
+      end
+  end.
+
+Fixpoint bx_run (p : bparams) (acts : list bxaction) (s : bxstate) : list bxevent * bxstate :=
+  match acts with
+  | [] => ([], s)
+  | a :: acts' =>
+      let r := bx_step p a s in
+      let r' := bx_run p acts' (snd r) in
+      (fst r :: fst r', snd r')
+  end.
+
+(* the batcher actions / events inside an extended history *)
+Definition xb_actions (acts : list bxaction) : list baction :=
+  flat_map (fun a => match a with XB a' => [a'] | _ => [] end) acts.
+Definition xb_events (evs : list bxevent) : list bevent :=
+  flat_map (fun e => match e with XE e' => [e'] | _ => [] end) evs.
+
 End Batcher.
 Arguments bstate : clear implicits.
 Arguments baction : clear implicits.
 Arguments bevent : clear implicits.
+Arguments bxstate : clear implicits.
+Arguments bxaction : clear implicits.
+Arguments bxevent : clear implicits.
